@@ -208,7 +208,7 @@ def tie_k2(ctx, prop, fam, fields, rep):
         li, df = hit
         rep.violate('k2', 'family %s: machine %d script %d op %d (%s): implementation differs from the model in %s'
                     % (fam, mm['machine'], mm['script'], li, mm['ops'][li] if li < len(mm['ops']) else '?', ','.join(df)),
-                    {'kind': 'k2', 'family': fam, 'dsl': mm['dsl'], 'defn': mm['defn'], 'ops': mm['ops'], 'line': li, 'fields': df,
+                    {'kind': 'k2', 'family': fam, 'machine': mm['machine'], 'dsl': mm['dsl'], 'defn': mm['defn'], 'ops': mm['ops'], 'line': li, 'fields': df,
                      'required(model)': mm['model'], 'observed(implementation)': mm['real']})
     if r['n_bad_scripts'] > len(r['mismatches']):
         rep.note('%d further mismatching scripts not expanded' % (r['n_bad_scripts'] - len(r['mismatches'])))
